@@ -156,6 +156,8 @@ func runC05(r *R) {
 		metrics  engine.Metrics
 		cancelT  time.Duration = -1
 		cancelSq uint64
+		cancelDoneT  time.Duration = -1
+		cancelDoneSq uint64
 		runSq    uint64
 	)
 	res := r.Sim(simrt.Config{Horizon: 2 * time.Hour, Grace: 30 * time.Second, Stalls: stalls, StallMax: time.Second, MaxSteps: 150000}, false, func() {
@@ -225,7 +227,9 @@ func runC05(r *R) {
 		doCancel := func() {
 			cancelT = time.Since(t0)
 			cancelSq = simrt.Seq()
-			cancel()
+			cancel() // (a scheduling point: the caller may be descheduled between deciding to cancel and the cancel taking effect)
+			cancelDoneT = time.Since(t0)
+			cancelDoneSq = simrt.Seq()
 		}
 		switch cancelPhase {
 		case 1:
@@ -287,7 +291,7 @@ func runC05(r *R) {
 			if e.Kind == "gun-bind" && e.Err == "" {
 				started++
 			}
-			if cancelT >= 0 && e.Seq > cancelSq && (e.Kind == "shoot-in" || e.Kind == "shoot-out" || e.Kind == "acquire") {
+			if cancelDoneT >= 0 && e.Seq > cancelDoneSq && (e.Kind == "shoot-in" || e.Kind == "shoot-out" || e.Kind == "acquire") {
 				finishedBeforeCancel = false
 			}
 		}
@@ -327,8 +331,8 @@ func runC05(r *R) {
 		if len(before) > 0 {
 			o := before[0]
 			r.Fail("error-swallowed/"+stripPool(o.kind)+"/"+swallowPhase(o.t, lastAct), "Engine.Run returned nil although %s failed with %q at %v (before Run returned at %v); %s", o.kind, o.msg, o.t, runAt, desc)
-		} else if cancelled && !finishedBeforeCancel {
-			r.Fail("cancel-ignored", "the caller cancelled at %v while instances were still shooting, but Engine.Run returned nil at %v; %s", cancelT, runAt, desc)
+		} else if cancelDoneT >= 0 && cancelDoneSq < runSq && !finishedBeforeCancel {
+			r.Fail("cancel-ignored", "the caller's cancel took effect at %v while instances were still shooting, but Engine.Run returned nil at %v; %s", cancelDoneT, runAt, desc)
 		}
 	case outcome == "canceled":
 		if !cancelled {
